@@ -1,7 +1,7 @@
 (* Correspondence glue for the Core-VRL program family (C06-C09, C13, ...):
    the model's run of the program vs what Runtime::resolve did on the implementation. *)
 From Coq Require Import List NArith ZArith Bool.
-From VRL Require Import Base.Bytes Base.Value Base.Lit Model.ValueCrud Model.Expr Model.Eval Model.EvalInst.
+From VRL Require Import Base.Bytes Base.Value Base.Lit Model.ValueCrud Model.Expr Model.Eval Model.EvalInst Model.Info.
 Import ListNotations.
 
 (* equal, except that the model's opaque error-message token matches any string *)
@@ -31,8 +31,29 @@ Definition osim (m i : option value) : bool :=
 Inductive iout := ISuccess (v : value) | IAborted (m : option bytes) | IFailed | IPanicked.
 
 Record ccase := mkCase {
-  c_prog : list expr; c_ev : value; c_md : value; c_names : list ident;
-  c_out : iout; c_rev : value; c_rmd : value; c_rvars : list (option value) }.
+  c_prog : list expr; c_ev : value; c_md : value; c_names : list ident; c_faults : list bool;
+  c_out : iout; c_rev : value; c_rmd : value; c_rvars : list (option value);
+  c_log : list top;       (* the Target operations the implementation performed, oldest first *)
+  c_q : list (prefix * path);    (* Program::info().target_queries *)
+  c_a : list (prefix * path) }.  (* Program::info().target_assignments *)
+
+Definition pfx_eqb (a b : prefix) : bool :=
+  match a, b with PEvent, PEvent | PMeta, PMeta => true | _, _ => false end.
+
+Fixpoint path_eqb (p q : path) : bool :=
+  match p, q with
+  | [], [] => true
+  | a :: p', b :: q' => seg_eqb a b && path_eqb p' q'
+  | _, _ => false
+  end.
+
+Definition top_eqb (a b : top) : bool :=
+  match a, b with
+  | TGet x p, TGet y q => pfx_eqb x y && path_eqb p q
+  | TIns x p, TIns y q => pfx_eqb x y && path_eqb p q
+  | TRem x p c, TRem y q d => pfx_eqb x y && path_eqb p q && Bool.eqb c d
+  | _, _ => false
+  end.
 
 Definition out_sim (m : outcome) (i : iout) : bool :=
   match m, i with
@@ -51,11 +72,20 @@ Fixpoint all2 {A B} (f : A -> B -> bool) (l1 : list A) (l2 : list B) : bool :=
   | _, _ => false
   end.
 
+Definition pp_eqb (a b : prefix * path) : bool := pfx_eqb (fst a) (fst b) && path_eqb (snd a) (snd b).
+Definition subset (l1 l2 : list (prefix * path)) : bool := forallb (fun a => existsb (pp_eqb a) l2) l1.
+Definition same_set l1 l2 := subset l1 l2 && subset l2 l1.
+
+(* the model of the compiler's report agrees with Program::info() (as sets) *)
+Definition info_check (c : ccase) : bool :=
+  same_set (queries_l (c_prog c)) (c_q c) && same_set (assigns_l (c_prog c)) (c_a c).
+
 Definition check (c : ccase) : bool :=
-  let '(o, s) := run_inst (c_prog c) (mkState [] (c_ev c) (c_md c)) in
+  let '(o, s) := run_inst (c_prog c) (mkState [] (c_ev c) (c_md c) [] (c_faults c)) in
   out_sim o (c_out c) && vsim (ev s) (c_rev c) && vsim (md s) (c_rmd c)
-  && all2 osim (map (var_get (vars s)) (c_names c)) (c_rvars c).
+  && all2 osim (map (var_get (vars s)) (c_names c)) (c_rvars c)
+  && all2 top_eqb (rev (tlog s)) (c_log c) && info_check c.
 
 Definition model_out (c : ccase) :=
-  let '(o, s) := run_inst (c_prog c) (mkState [] (c_ev c) (c_md c)) in
-  (o, ev s, md s, map (var_get (vars s)) (c_names c)).
+  let '(o, s) := run_inst (c_prog c) (mkState [] (c_ev c) (c_md c) [] (c_faults c)) in
+  (o, ev s, md s, map (var_get (vars s)) (c_names c), rev (tlog s)).
